@@ -28,6 +28,8 @@ class Player(object):
         self.float_heights = float_heights
         self.calls = 0
         self.all_calls = []      # every call issued, refused ones included
+        self.tail = 0            # calls to go on for under the universal clauses once the model stops giving verdicts
+        self.tail_calls = 0
 
     def _run(self, call):
         vs, status = hjsearch.check_call(self.c, self.m, call, self.hist, None, self.float_heights)
@@ -45,6 +47,18 @@ class Player(object):
             status = 'diverged'
         elif status != 'refused':
             self.alive = False
+            if self.tail and not vs and status.startswith('truncated') and self.draw is not None:
+                # the model gives no verdicts from here on: the clauses that hold whatever the jump-off semantics still
+                # do, and the history goes on under those alone
+                def seen(call_, vs_, acc_):
+                    self.tail_calls += 1
+                    if self.on_call:
+                        self.on_call(self, call_, vs_, 'tail-accepted' if acc_ else 'tail-refused')
+                if self.on_call:
+                    self.on_call(self, call, vs, status)
+                hjsearch.universal_tail(self.c, list(self.m.order), [('add', b) for b in self.m.order] + list(self.all_calls), self.draw, self.tail,
+                                        self.float_heights, seen)
+                return status
         if self.on_call:
             self.on_call(self, call, vs, status)
         return status
@@ -107,10 +121,11 @@ def jumpoff(p, draw, max_heights=3):
                 break
 
 
-def random_play(draw, on_call=None, noise=0, nmin=2, lenient=False, float_heights=False):
+def random_play(draw, on_call=None, noise=0, nmin=2, lenient=False, float_heights=False, tail=0):
     n = nmin + draw(5 - nmin)
     hreg = 1 + draw(4)
     p = Player(n, on_call, noise, draw, lenient=lenient, float_heights=float_heights)
+    p.tail = tail
     bibs = BIBS[:n]
     step = hjsearch.STEP if not float_heights or draw(2) else Decimal('0.01')
     h = Decimal('0.95')
